@@ -1212,8 +1212,10 @@ func (k *Kernel) checkNextRoundPrecommitViewShift(ctx context.Context, s *kState
 	maj := tmconsensus.ByzantineMajority(vs.AvailablePower)
 	maxPow := vs.PrecommitBlockPower[vs.MostVotedPrecommitHash]
 	if maxPow >= maj {
-		// Need a test in place before handling the ready to commit case.
-		panic("TODO: handle a majority precommit for NextRound")
+		// The round we just jumped to already has a majority precommit on a single target.
+		// It is the voting view now, so handle it exactly as a majority precommit
+		// arriving for the voting round (advance on nil, commit on a block).
+		return k.checkVotingPrecommitViewShift(ctx, s)
 	}
 
 	if maxPow >= min {
